@@ -7,6 +7,7 @@ import time
 import signal
 import hashlib
 import traceback
+import re
 import multiprocessing
 
 VERIF = os.path.dirname(os.path.dirname(os.path.abspath(__file__)))
@@ -173,8 +174,9 @@ def report(prop, tier, seed, level, total, nontrivial, outcomes, rule, assumptio
     per_sig = {}
     written = 0
     for v in new:
-        per_sig[v['sig']] = per_sig.get(v['sig'], 0) + 1
-        if per_sig[v['sig']] > 2 or written >= 25:
+        cls = re.sub(r'\d+(\.\d+)?', 'N', v['sig'])
+        per_sig[cls] = per_sig.get(cls, 0) + 1
+        if per_sig[cls] > 2 or written >= 25:
             continue
         body = {'property': prop, 'sig': v['sig'], 'scenario': v['scenario'], 'choices': v['choices'],
                 'detail': v['detail'], 'seed': seed}
